@@ -59,6 +59,18 @@ CHECKS = [
      "design_ref": "DESIGN.md 5/C14",
      "level_text": "Generated-input search over programs x action tables with an enabled/disabled reference model; checks no suppression while disabled, re-synchronisation on a disable inside an episode, decisions after re-enabling against the true position, and inertness of unmatched / streaming @-commands. Exploration.",
      "level_note": _PRINTER_NOTE + " The action-table model uses Python's re.match like the plugin's documented semantics."},
+    {"id": "C18", "technique": "property-based testing (Hypothesis) of round-trip / idempotence laws of the parser: lossless parseLines, stable normalisation, independent XOR checksum validation",
+     "design_ref": "DESIGN.md 5/C18",
+     "level_text": "Generated free text and structured files against algebraic laws (concatenation identity, idempotent normalisation, checksum validity by the parser's own validate() and by an independent Marlin-style XOR). Exploration.",
+     "level_note": "Trusted: nothing but Python string operations; one shared parser instance is used through parseLines, as the plugin does."},
+    {"id": "C19", "technique": "property-based testing (Hypothesis): structurally generated parameter words whose expected reading is the generator's own structure; handler effects compared with the last value per letter",
+     "design_ref": "DESIGN.md 5/C19",
+     "level_text": "Generated word sequences in all legal spellings; the oracle never parses (expected pairs come from the generator). Exploration.",
+     "level_note": "Trusted: Python float() of the generated spelling. G92 X/Y/Z expectations are excluded while KF-G92-XYZ-SIGN is open (counted as excluded_known)."},
+    {"id": "C20", "technique": "property-based testing (Hypothesis): differential twin - StreamProcessor.process_line vs GcodeHandlers on a deep copy of the live state fed through an independent line normaliser; live-state snapshot for isolation",
+     "design_ref": "DESIGN.md 5/C20",
+     "level_text": "Generated live-state histories x files (line numbers, checksums, comments, blank lines, @-commands, LF/CRLF, missing final terminator), compared line for line with the live path. Exploration.",
+     "level_note": "Trusted: the line normaliser in props/c20.py (what OctoPrint hands to the queuing hooks) and vlib/gread.py."},
     {"id": "C17", "technique": "property-based testing (Hypothesis) against exact rational arithmetic and probe-point soundness oracle",
      "design_ref": "DESIGN.md 5/C17",
      "level_text": "Generated search over region pairs and probe points with an exact-arithmetic oracle; finds any membership/containment error larger than a few ulp on the explored inputs, does not prove absence.",
